@@ -15,7 +15,8 @@ SPEC = {
         {"name": "TestInterleavings", "quick": 6000, "thorough": 600000, "shards_quick": 3, "shards_thorough": 16, "timeout": 1500},
     ],
     "rule": ("rapid-generated schedule trees (depth <= 3, <= 5 children; leaves once/const/line/step/instance_step/unlimited, zero-token "
-             "and empty parts anywhere) judged against manual chaining of separately drained parts. TestSeqFinite: scripted Next/Left "
+             "and empty parts anywhere; in the finite tests also instance_step parts whose `to` is below `from` - omitted (0), anywhere below, or "
+             "less than a step below: no step fits, `from` tokens at once, the part finishes at its own start - alone and before further parts) judged against manual chaining of separately drained parts. TestSeqFinite: scripted Next/Left "
              "by one caller in virtual time, optional on-finish wrapper, config or constructor path. TestConcFinite: 2-8 free-running "
              "goroutines, 4 rounds per case, multiset + linearisability windows for Left. TestSeqUnlimited/TestConcUnlimited: real time, "
              "1-4 ms parts, callers wait for each token as coreutil.Waiter does. TestImplicitStart: 2-8 goroutines released together "
@@ -29,7 +30,9 @@ SPEC = {
     "floors": {"TestSeqUnlimited/unknown_not_first": 0.15, "TestSeqFinite/zero_token_part": 0.2, "TestConcFinite/left_callers": 0.3,
                "TestConcFinite/callers_ge_4": 0.3, "TestInterleavings/next_upgrade_contended": 0.1,
                "TestInterleavings/left_upgrade_point": 0.05, "TestImplicitStart/single_elementary_profile": 0.3,
-               "TestImplicitStart/callers_ge_4": 0.3, "TestSeqUnlimited/left_negative_seen": 0.1},
+               "TestImplicitStart/callers_ge_4": 0.3, "TestSeqUnlimited/left_negative_seen": 0.1,
+               "TestSeqFinite/istep_to_below_from_before_parts": 0.15, "TestSeqFinite/istep_to_below_from_by_a_step": 0.12,
+               "TestConcFinite/istep_to_below_from_before_parts": 0.12, "TestImplicitStart/istep_to_below_from": 0.1},
     "manifest": {
         "technique": "model-based property testing (rapid): manual-chaining reference, linearisability windows, harness-scheduled interleavings at hook yield points",
         "text": ("Schedule trees are generated and compared with a reference that drains each elementary part alone from the finish "
